@@ -2,6 +2,10 @@ module verifharness
 
 go 1.14
 
-require github.com/vx-labs/wasp/v4 v4.0.0
+require (
+	github.com/hashicorp/memberlist v0.2.2
+	github.com/vx-labs/mqtt-protocol v5.1.1+incompatible
+	github.com/vx-labs/wasp/v4 v4.0.0
+)
 
 replace github.com/vx-labs/wasp/v4 => /repo
